@@ -149,7 +149,7 @@ namespace mfuse
         void EmitBreak(sourceLocation_t sourceLoc);
         void EmitCaseLabel(sval_t case_parm, sval_t parameter_list, sourceLocation_t sourceLoc);
         void EmitCaseLabel(const rawchar_t* name, sourceLocation_t sourceLoc);
-        void EmitCaseLabel(int32_t label, sourceLocation_t sourceLoc);
+        void EmitCaseLabel(int64_t label, sourceLocation_t sourceLoc);
         void EmitCatch(sval_t val, const opval_t* try_begin_code_pos, sourceLocation_t sourceLoc);
         void EmitCommandMethod(sval_t listener, const rawchar_t* commandName, sval_t parameter_list, sourceLocation_t sourceLoc);
         void EmitCommandMethodRet(sval_t listener, const rawchar_t* commandName, sval_t parameter_list, sourceLocation_t sourceLoc);
